@@ -25,6 +25,8 @@ ROUTES = ['builder', 'tvm', 'plain']
 def node_problem(r, l, what):
     """compare one reference cell with one library cell"""
     h = r.H(0)
+    if l.bits.to01() != r.bits or len(l.refs) != len(r.refs):
+        return Fail(f'content-differs/{what}', f'cell holds {len(l.bits)} bits / {len(l.refs)} refs, expected {len(r.bits)} / {len(r.refs)}')
     if l.hash != h:
         return Fail(f'hash-differs/{what}', f'bits={len(r.bits)} refs={len(r.refs)} lib={l.hash.hex()} ref={h.hex()}')
     for i in range(4):
@@ -83,6 +85,33 @@ def check(case):
                 return f
             if not (d == l) or not (l == d) or hash(d) != hash(l):
                 return Fail(f'equality/derived-not-equal/{name}', f'node {k}')
+    # the builder a cell came from keeps being used (cells sharing a prefix): the finished cell must stay what it was
+    from pytoniq_core.boc.builder import Builder
+    pos = {id(c): i for i, c in enumerate(cells)}
+    for k in picks:
+        r = cells[k]
+        b = Builder().store_bits(r.bits)
+        for x in r.refs:
+            b.store_ref(lib[pos[id(x)]])
+        ok, first = call(b.end_cell)
+        if not ok:
+            return Fail('construction-raises/builder', f'{exc_sig(first)}: {first!r}')
+        more_bits = '1' if len(r.bits) < 1023 else ''
+        more_ref = len(r.refs) < 4
+        ok, e = call(lambda: (b.store_bits(more_bits) if more_bits else None, b.store_ref(lib[0]) if more_ref else None))
+        if not ok:
+            return Fail('builder-reuse/store-after-end_cell-raises', f'{exc_sig(e)}: {e!r}')
+        ok, second = call(b.end_cell)
+        if not ok:
+            return Fail('builder-reuse/second-end_cell-raises', f'{exc_sig(second)}: {second!r}')
+        f = node_problem(r, first, 'builder-reused/first-cell')
+        if f:
+            return f
+        r2 = rc.RCell(r.bits + more_bits, list(r.refs) + ([cells[0]] if more_ref else []), False) if cells[0].D(0) < 1023 or not more_ref else None
+        if r2 is not None:
+            f = node_problem(r2, second, 'builder-reused/second-cell')
+            if f:
+                return f
     # parsed from a reference-encoded BoC
     root_r = cells[-1]
     boc = refboc.encode([root_r], has_crc=bool(case.get('crc')), has_idx=bool(case.get('idx')))
@@ -105,6 +134,28 @@ def check(case):
         stack.extend(zip(r.refs, l.refs))
     if not (parsed == lib[-1]):
         return Fail('equality/parsed-not-equal-built', '')
+    # a bag whose STORED hashes are genuine, and one whose stored hashes are wrong: a reader may refuse the second, but the
+    # hash it reports for a cell is always the hash of the cell's content
+    order = rc.topo([root_r])
+    sel = set(range(0, len(order), 2)) if case.get('idx') else set(range(len(order)))
+    for bogus in (False, True):
+        boc = refboc.encode([root_r], has_crc=bool(case.get('crc')), with_hashes=sel, bogus_hashes=sel if bogus else ())
+        ok, p2 = call(Cell.one_from_boc, boc)
+        if not ok:
+            if bogus:
+                continue
+            return Fail('parse-reference-boc-raises/stored-hashes', f'{exc_sig(p2)}: {p2!r} boc={boc.hex()[:200]}')
+        stack = [(root_r, p2)]
+        seen = set()
+        while stack:
+            r, l = stack.pop()
+            if id(r) in seen:
+                continue
+            seen.add(id(r))
+            f = node_problem(r, l, 'parsed/stored-hashes-' + ('wrong' if bogus else 'genuine'))
+            if f:
+                return f
+            stack.extend(zip(r.refs, l.refs))
     # equality <=> hash equality over all pairs of nodes; dict/set collapse
     hs = [c.H(0) for c in cells]
     m = min(n, 12)
